@@ -1,4 +1,5 @@
 #include "common.h"
+#include "unique_table.h"
 #include <cmath>
 #include <cstdarg>
 
@@ -302,7 +303,7 @@ std::string edgeStr(const dd_edge& e, const Kind& k) {
 
 void dumpForest(const char* name, forest* F, const Kind& k) {
     node_handle last = F->getLastNode();
-    long live = 0;
+    long live = 0, badViews = 0, badHash = 0, badFind = 0;
     for (node_handle h = 1; h <= last; h++) {
         if (!F->isActiveNode(h)) continue;
         if (F->isDeletedNode(h)) continue;
@@ -320,9 +321,39 @@ void dumpForest(const char* name, forest* F, const Kind& k) {
             s += childStr(F, k, U->down(i));
             if (U->hasEdges()) s += evStr(U->edgeval(i));
         }
+        // the sparse view must describe the same index -> (edge value, child) map as the full view, and
+        // both views must hash like the stored node (the unique table is rebucketed with hashNode)
+        {
+            unpacked_node* S = unpacked_node::newFromNode(F, h, SPARSE_ONLY);
+            std::vector<node_handle> dn(U->getSize(), F->getTransparentNode());
+            std::vector<std::string> ev(U->getSize());
+            bool ok = true;
+            unsigned prev = 0;
+            for (unsigned z = 0; z < S->getSize(); z++) {
+                unsigned i = S->index(z);
+                if (i >= U->getSize() || (z && i <= prev)) { ok = false; break; }
+                prev = i;
+                dn[i] = S->down(z);
+                if (S->hasEdges()) ev[i] = evStr(S->edgeval(z));
+            }
+            for (unsigned i = 0; ok && i < U->getSize(); i++) {
+                if (dn[i] != U->down(i)) ok = false;
+                if (ok && U->hasEdges() && U->down(i) != F->getTransparentNode() && ev[i] != evStr(U->edgeval(i))) ok = false;
+            }
+            if (!ok) ++badViews;
+            U->computeHash();
+            S->computeHash();
+            if (U->hash() != S->hash() || U->hash() != F->hashNode(h)) ++badHash;
+            // the unique table must find this very node for either view
+            if (F->getUT()->find(*U, F->getVarByLevel(lvl)) != h || F->getUT()->find(*S, F->getVarByLevel(lvl)) != h) ++badFind;
+            unpacked_node::Recycle(S);
+        }
         unpacked_node::Recycle(U);
         emits(s);
     }
+    emit("expect views-agree.%s 0 %ld", name, badViews);
+    emit("expect views-hash-alike.%s 0 %ld", name, badHash);
+    emit("expect unique-table-finds-node.%s 0 %ld", name, badFind);
     std::vector<node_handle> roots;
     F->verifRoots(roots);
     std::string s = std::string("roots ") + name;
